@@ -10,6 +10,11 @@
 (*            get_remainder() returned (logged in full for messages up to 256 bytes;  *)
 (*            above that the driver logs split_ok = (so_far + remainder == message))  *)
 (*   aborted = "" | "write" | "read": an add_* / get_* raised or did not return        *)
+(*   huge    = TRUE for messages with a field of a megabyte or more: the bytes stay in   *)
+(*            the driver; fields / reads of such a field are summaries [t, len, digest]   *)
+(*            (t = "hstring" | "htext" | "hlist"), writes = per add_* [seglen, header,     *)
+(*            digest, seg (the bytes, for ordinary fields only)], split_ok is the          *)
+(*            driver's comparison so_far + remainder == message (derived)                  *)
 (* One step per add_*, one for the rewind, one per get_*; every step is judged by the *)
 (* design spec's encoder, decoder and clause operators.  Total (never blocks).        *)
 (* A verdict element is <<clause, index of the field>>.                               *)
@@ -26,7 +31,7 @@ TInit == /\ tid \in 1..Len(Batch) /\ l = 1 /\ bad = {} /\ Init
 Tag(S, k) == {<<c, k>> : c \in S}
 
 \* add_* of field l: the spec's AddField with the bytes the code appended
-TAdd == /\ l <= NF
+TAdd == /\ l <= NF /\ ~R.huge
         /\ LET f == R.fields[l]
                seg == SubSeq(R.wire, (IF l = 1 THEN 0 ELSE R.ends[l - 1]) + 1, R.ends[l]) IN
              /\ fields' = Append(fields, f)
@@ -44,7 +49,7 @@ TRewind == /\ l = NF + 1
            /\ UNCHANGED <<tid, fields, wire, ends, got>>
 
 \* get_* number k: the spec's GetField, judged against what the code returned and where it stands
-TGet == /\ l > NF + 1 /\ l <= NF + 1 + NR
+TGet == /\ l > NF + 1 /\ l <= NF + 1 + NR /\ ~R.huge
         /\ LET k == l - NF - 1
                rd == R.reads[k]
                f == fields[k]
@@ -62,13 +67,36 @@ TGet == /\ l > NF + 1 /\ l <= NF + 1 + NR
         /\ l' = l + 1
         /\ UNCHANGED <<tid, fields, wire, ends, phase>>
 
+\* the same two steps for a message with a huge field: lengths, headers and digests instead of bytes
+THugeAdd == /\ l <= NF /\ R.huge
+            /\ LET f == R.fields[l]
+                   w == R.writes[l] IN
+                 /\ fields' = Append(fields, f)
+                 /\ ends' = Append(ends, R.ends[l])
+                 /\ bad' = bad \cup Tag((IF f.t \in HugeTypes THEN HugeWriteClauses(f, w) ELSE WriteClauses(f, w.seg))
+                                        \cup (IF R.ends[l] = (IF l = 1 THEN 0 ELSE R.ends[l - 1]) + w.seglen THEN {} ELSE {"C_wire_not_sum_of_fields"}), l)
+            /\ l' = l + 1
+            /\ UNCHANGED <<tid, wire, phase, sofar, rest, got>>
+
+THugeGet == /\ l > NF + 1 /\ l <= NF + 1 + NR /\ R.huge
+            /\ LET k == l - NF - 1
+                   rd == R.reads[k]
+                   f == fields[k] IN
+                 /\ got' = Append(got, rd.val)
+                 /\ bad' = bad \cup Tag((IF f.t \in HugeTypes THEN HugeReadClauses(f, rd.val)
+                                         ELSE IF rd.val = f THEN {} ELSE {"P_roundtrip"})
+                                        \cup (IF rd.split_ok THEN {} ELSE {"P_sofar_plus_remainder"})
+                                        \cup (IF rd.sofar_len = ends[k] THEN {} ELSE {"C_reader_position"}), k)
+            /\ l' = l + 1
+            /\ UNCHANGED <<tid, fields, wire, ends, phase, sofar, rest>>
+
 TEnd == /\ l = NF + NR + 2
         /\ bad' = bad \cup (IF R.aborted = "read" THEN {<<"P_read_failed", NR + 1>>} ELSE {})
                       \cup (IF R.aborted = "" /\ NR # NF THEN {<<"C_reads_missing", NR + 1>>} ELSE {})
         /\ l' = l + 1
         /\ UNCHANGED <<tid, vars>>
 
-TNext == TAdd \/ TRewind \/ TGet \/ TEnd
+TNext == TAdd \/ THugeAdd \/ TRewind \/ TGet \/ THugeGet \/ TEnd
 TSpec == TInit /\ [][TNext]_tvars
 Report == l = NF + NR + 3 => /\ (bad # {} => PrintT(<<"VERDICT", tid, bad>>))
                              /\ PrintT(<<"DONE", tid>>)
